@@ -158,7 +158,7 @@ def spec_gcs(B, o, coords, to_, from_, what, replay):
     return ok
 
 
-nframes = 25 if Q else 400
+nframes = 25 if Q else 800
 for it in range(nframes):
     for shape in SHAPES:
         exact = bool(rng.integers(0, 2))
@@ -394,7 +394,7 @@ def spec_proper(M, what, replay, n=3):
 
 SPECIAL_ANGLES = [0.0, math.pi / 2, -math.pi / 2, math.pi, -math.pi, math.pi / 4, 2 * math.pi, 1e-9, -1e-9, 3.0, 100.0]
 rm_lines, rm_meta = [], []
-angles = SPECIAL_ANGLES + [float(a) for a in rng.uniform(-2 * math.pi, 2 * math.pi, size=40 if Q else 600)]
+angles = SPECIAL_ANGLES + [float(a) for a in rng.uniform(-2 * math.pi, 2 * math.pi, size=40 if Q else 2000)]
 for th in angles:
     for fn, cmd in ((g.rotation_matrix_x, "rotx"), (g.rotation_matrix_y, "roty"), (g.rotation_matrix_z, "rotz")):
         M = fn(th)
@@ -403,7 +403,7 @@ for th in angles:
         rm_meta.append(dict(fn=cmd, angle=th, impl=flist(M), scale=1.0, spec_failed=sf))
         nontrivial.add((cmd, th))
     chk.count(rotation="elementary")
-for k in range(len(SPECIAL_ANGLES) + (40 if Q else 600)):
+for k in range(len(SPECIAL_ANGLES) + (40 if Q else 2000)):
     if k < len(SPECIAL_ANGLES):
         y, p_, r = SPECIAL_ANGLES[k], SPECIAL_ANGLES[(k + 3) % len(SPECIAL_ANGLES)], SPECIAL_ANGLES[(k + 5) % len(SPECIAL_ANGLES)]
     else:
@@ -417,7 +417,7 @@ for k in range(len(SPECIAL_ANGLES) + (40 if Q else 600)):
 run_driver(rm_lines, rm_meta, "rotmat")
 # class E inside coqc: the elementary matrices as functions of the (cos, sin) pair numpy computes for the angle
 rotcs_coq = []
-for th in angles[:120 if Q else 500]:
+for th in angles[:120 if Q else 1000]:
     c_, s_ = float(np.cos(th)), float(np.sin(th))
     mats = [g.rotation_matrix_x(th), g.rotation_matrix_y(th), g.rotation_matrix_z(th)]
     rotcs_coq.append((cpair(cpair(cfloat(c_), cfloat(s_)), cpair(*(cm3(M_) for M_ in mats))),
@@ -433,7 +433,7 @@ samples.append({k: rm_meta[-1][k] for k in ("fn", "yaw", "pitch", "roll", "impl"
 # 3. direct_isometry_2d / direct_isometry_3d (class T + spec)
 # ---------------------------------------------------------------------------
 iso_lines, iso_meta = [], []
-for it in range(40 if Q else 500):
+for it in range(40 if Q else 1200):
     kind = it % 8
     A = rng.normal(size=2) * 10.0 ** rng.integers(-2, 2)
     L = float(10.0 ** rng.uniform(-2, 2))
@@ -479,7 +479,7 @@ for it in range(40 if Q else 500):
                          scale=max(1.0, float(np.max(np.abs([A, B, Ap, Bp])))), spec_failed=sf))
     nontrivial.add(("iso2d", it))
 
-for it in range(48 if Q else 576):
+for it in range(48 if Q else 1152):
     kind = it % 8
     F = signed_perm() if kind == 1 else random_orthonormal()
     G = signed_perm() if kind == 2 else random_orthonormal()
@@ -543,7 +543,7 @@ sph_lines, sph_meta = [], []
 sph_pts = [np.array(p, dtype=float) for p in itertools.product([-1.0, 0.0, 2.0], repeat=3) if any(p)]
 sph_pts += [np.array([0.0, 0.0, 3.0]), np.array([0.0, 0.0, -3.0]), np.array([-1.0, 0.0, 0.0]), np.array([-1.0, -0.0, 0.0]),
             np.array([-1.0, 1e-300, 0.0]), np.array([-1.0, -1e-300, 0.0]), np.array([1e-200, 0.0, 1.0])]
-sph_pts += [rng.normal(size=3) * 10.0 ** rng.integers(-3, 4) for _ in range(60 if Q else 1500)]
+sph_pts += [rng.normal(size=3) * 10.0 ** rng.integers(-3, 4) for _ in range(60 if Q else 5000)]
 for shape in [(), (4,), (2, 3)]:
     n = int(np.prod(shape, dtype=int))
     for rep in range(3 if Q else 20):
@@ -618,7 +618,7 @@ samples.append({k: sph_meta[-1][k] for k in ("fn", "point", "impl", "model")})
 QUADS = [(1, 2, 2), (2, 3, 6), (1, 4, 8), (4, 4, 7), (2, 6, 9), (6, 6, 7), (3, 4, 12), (2, 10, 11), (0, 3, 4), (0, 0, 5)]
 dist_coq = []
 dist_lines, dist_meta = [], []
-for it in range(12 if Q else 120):
+for it in range(12 if Q else 300):
     kind = it % 3
     n1, n2 = int(rng.integers(1, 6)), int(rng.integers(1, 6))
     if kind == 0:     # Pythagorean: every distance is an integer multiple of a power of two
@@ -733,7 +733,7 @@ for lo, hi, d in [(0.0, 1.0, 2.0), (0.0, 1.0, 1.0), (0.0, 1.0, 3.0), (0.0, 1.0, 
                   (0.0, 1e-9, 1.0), (5.0, 5.0, 1.0), (5.0, 5.0, 0.0), (-0.0, 0.0, 1.0), (0.0, 1.0, 0.0), (0.0, 1.0, -0.25),
                   (0.0, 1.0, -4.0), (0.0, 1.0, -1.0), (0.0, 0.25, -0.5), (1.0, 0.0, 0.25), (0.0, 1.0, 1e-4)]:
     axis_cases.append((lo, hi, d, "boundary"))
-for _ in range(150 if Q else 3000):
+for _ in range(150 if Q else 8000):
     lo = float(rng.normal() * 10.0 ** rng.integers(-3, 2))
     L = float(10.0 ** rng.uniform(-3, 1))
     d = float(L * 10.0 ** rng.uniform(-2.2, 0.5))
@@ -757,13 +757,13 @@ for n_, (lo, hi, d, fam) in enumerate(axis_cases):
 run_driver(axis_lines, axis_meta, "grid-axis")
 # in coqc: all structured families + a sample of the random ones (long axes are slow to type-check)
 sel = [c for c in axis_coq if c[1]["family"] != "random" and (c[1]["impl"] is None or len(c[1]["impl"]) <= 120)]
-sel += [c for c in axis_coq if c[1]["family"] == "random" and (c[1]["impl"] is None or len(c[1]["impl"]) <= 60)][:100 if Q else 600]
+sel += [c for c in axis_coq if c[1]["family"] == "random" and (c[1]["impl"] is None or len(c[1]["impl"]) <= 60)][:100 if Q else 1500]
 run_coq("gridaxis", "(float * float * float) * option (list float)", sel,
         "fun c => let '(lo, hi, d) := fst c in oeq (leq feq) (grid_axis NumF lo hi d) (snd c)", "grid-axis", "Grid axis vector")
 
 # whole grids: xvect/yvect/zvect, coords[ix,iy,iz], to_1d_points order, to_oriented_points
 grid_coq = []
-for it in range(25 if Q else 250):
+for it in range(25 if Q else 500):
     ext = []
     for ax in range(3):
         lo = float(dyadic(())) if it % 2 == 0 else float(rng.normal())
@@ -852,7 +852,7 @@ cen_cases = []
 for s_, p_ in [(1.0, 0.25), (1.0, 0.5), (1.0, 1.0), (1.0, 2.0), (1.0, 0.3), (0.0, 0.25), (2.0, 0.5), (3.0, 1.0), (2.5, 1.0),
                (1.0, 1.0 / 3), (0.75, 0.25), (1.25, 0.25), (1e-3, 0.3e-3), (20e-3, 1e-3), (1.0, 0.0), (-1.0, 0.5)]:
     cen_cases.append((float(dyadic(())), s_, p_))
-for _ in range(40 if Q else 800):
+for _ in range(40 if Q else 2000):
     cen_cases.append((float(rng.normal()), float(10.0 ** rng.uniform(-3, 0.5)) * float(rng.random() > 0.1), float(10.0 ** rng.uniform(-3, 0))))
 for n_, (c, s_, p_) in enumerate(cen_cases):
     centre = [float(dyadic(())), float(dyadic(())), float(dyadic(()))]
@@ -898,7 +898,7 @@ for n_, (c, s_, p_) in enumerate(cen_cases):
     nontrivial.add(("centred", c, s_, p_))
 run_driver(cen_lines, cen_meta, "grid-centred")
 run_coq("centred", "(float * float * float * float * float * float * float) * option (list float * list float * list float)",
-        cen_coq[:150 if Q else 600],
+        cen_coq[:150 if Q else 1500],
         "fun c => let '(cx, cy, cz, sx, sy, sz, px) := fst c in "
         "match grid_centred_at_point NumF cx cy cz sx sy sz px, snd c with "
         "| Some gr, Some (xs, ys, zs) => leq feq (g_xvect gr) xs && leq feq (g_yvect gr) ys && leq feq (g_zvect gr) zs "
@@ -910,7 +910,7 @@ run_coq("centred", "(float * float * float * float * float * float * float) * op
 box_coq = []
 nbox = 0
 for mask in range(64):
-    for rep in range(1 if Q else 4):
+    for rep in range(1 if Q else 8):
         lo = dyadic((3,), bits=2, span=2)
         hi = lo + np.abs(dyadic((3,), bits=2, span=2))
         bounds = [lo[0], hi[0], lo[1], hi[1], lo[2], hi[2]]       # xmin xmax ymin ymax zmin zmax
